@@ -288,7 +288,7 @@ func a1Core(p *Prog, c *PktClosure) (problems []string, nID, injections, nRet in
 			if p.originFullSlice(args[i]) != ssa.Value(pp) {
 				allID = false
 			}
-			if derivedFromParams(p, args[i], params) {
+			if aliasesParams(p, c.Fn, args[i], params) {
 				anyDerived = true
 			}
 		}
@@ -796,88 +796,7 @@ func writesThroughVals(p *Prog, fn *ssa.Function, roots []ssa.Value, visiting ma
 	}
 	visiting[fn] = true
 	defer delete(visiting, fn)
-	// derived: values that alias caller memory (pointers into it, slices of it)
-	derived := map[ssa.Value]bool{}
-	for _, r := range roots {
-		derived[r] = true
-	}
-	// local variables that hold a shallow copy of caller memory (hc := *header): their reference-typed fields alias it
-	holders := map[ssa.Value]bool{}
-	changed := true
-	for changed {
-		changed = false
-		mark := func(v ssa.Value) {
-			if !derived[v] {
-				derived[v] = true
-				changed = true
-			}
-		}
-		for _, f := range allNested(fn) {
-			for _, fv := range f.FreeVars {
-				if r := resolveFreeVar(fv); r != ssa.Value(fv) && derived[r] {
-					mark(fv)
-				}
-			}
-			instrsOf(f, func(in ssa.Instruction) {
-				switch x := in.(type) {
-				case *ssa.FieldAddr:
-					if derived[x.X] {
-						mark(x)
-					}
-				case *ssa.IndexAddr:
-					if derived[x.X] {
-						mark(x)
-					}
-				case *ssa.Slice:
-					if derived[x.X] {
-						mark(x)
-					}
-				case *ssa.ChangeType:
-					if derived[x.X] {
-						mark(x)
-					}
-				case *ssa.Phi:
-					for _, e := range x.Edges {
-						if derived[e] {
-							mark(x)
-						}
-					}
-				case *ssa.UnOp:
-					if x.Op == token.MUL {
-						// loading a slice/pointer/map-typed field out of caller memory yields an alias of caller memory;
-						// loading a struct that contains such fields yields a shallow copy
-						if derived[x.X] && (isRefType(x.Type()) || containsRefs(x.Type())) {
-							mark(x)
-						}
-						if root := cellAddr(addrRoot(x.X)); holders[root] && (isRefType(x.Type()) || containsRefs(x.Type())) {
-							mark(x)
-						}
-						// loading from a single-assignment local cell that holds a derived value (spilled params)
-						if al, ok := cellAddr(x.X).(*ssa.Alloc); ok {
-							for _, st := range p.storesToCell(al) {
-								if derived[st.Val] {
-									mark(x)
-								}
-							}
-						}
-					}
-				case *ssa.Field:
-					if derived[x.X] && (isRefType(x.Type()) || containsRefs(x.Type())) {
-						mark(x)
-					}
-				case *ssa.Store:
-					if derived[x.Val] {
-						if root, ok := cellAddr(addrRoot(x.Addr)).(*ssa.Alloc); ok && !holders[root] {
-							if _, isStruct := x.Val.Type().Underlying().(*types.Struct); isStruct {
-								holders[root] = true
-								changed = true
-							}
-						}
-					}
-				}
-			})
-		}
-	}
+	derived, _ := aliasSets(p, fn, roots)
 	var out []string
 	for _, f := range allNested(fn) {
 		instrsOf(f, func(in ssa.Instruction) {
@@ -1015,7 +934,7 @@ func twccExtensionCall(p *Prog, call ssa.CallInstruction) bool {
 		return false
 	}
 	id := args[1]
-	reachesID := p.backwardReaches(id, func(v ssa.Value) bool {
+	isIDField := func(v ssa.Value) bool {
 		if u, ok := v.(*ssa.UnOp); ok && u.Op == token.MUL {
 			if fa, ok := u.X.(*ssa.FieldAddr); ok {
 				return fieldKeyAddr(fa) == "interceptor.RTPHeaderExtension.ID"
@@ -1027,26 +946,51 @@ func twccExtensionCall(p *Prog, call ssa.CallInstruction) bool {
 			}
 		}
 		return false
-	})
-	if !reachesID {
-		return false
 	}
-	// the enclosing function compares an extension URI with the transport-cc URI constant
+	usesURI := func(fn *ssa.Function) bool {
+		found := false
+		instrsOf(fn, func(in ssa.Instruction) {
+			if bo, ok := in.(*ssa.BinOp); ok && (bo.Op == token.EQL || bo.Op == token.NEQ) {
+				for _, s := range []ssa.Value{bo.X, bo.Y} {
+					if c, ok := s.(*ssa.Const); ok && c.Value != nil && strings.Contains(c.Value.ExactString(), "transport-wide-cc-extensions") {
+						found = true
+					}
+				}
+			}
+		})
+		return found
+	}
 	top := call.Parent()
 	for top.Parent() != nil {
 		top = top.Parent()
 	}
-	found := false
-	instrsOf(top, func(in ssa.Instruction) {
-		if bo, ok := in.(*ssa.BinOp); ok && bo.Op == token.EQL {
-			for _, s := range []ssa.Value{bo.X, bo.Y} {
-				if c, ok := s.(*ssa.Const); ok && c.Value != nil && strings.Contains(c.Value.ExactString(), "transport-wide-cc-extensions") {
-					found = true
+	// (a) the id is taken from RTPHeaderExtension.ID in the enclosing Bind function, which matches the URI
+	if p.backwardReaches(id, isIDField) && usesURI(top) {
+		return true
+	}
+	// (b) the id is the result of a repository helper that matches the URI and returns the extension's ID
+	okHelper := false
+	p.backwardReaches(id, func(v ssa.Value) bool {
+		c, ok := v.(*ssa.Call)
+		if !ok {
+			return false
+		}
+		g := c.Call.StaticCallee()
+		if g == nil || !p.InUniverse(g) || !usesURI(g) {
+			return false
+		}
+		for _, b := range g.Blocks {
+			if ret, ok := b.Instrs[len(b.Instrs)-1].(*ssa.Return); ok {
+				for _, r := range ret.Results {
+					if p.backwardReaches(r, isIDField) {
+						okHelper = true
+					}
 				}
 			}
 		}
+		return okHelper
 	})
-	return found
+	return okHelper
 }
 
 // a4ReadBuffer: after n, _, err := next.Read(B, a) the buffer B is used as data only as B[..:n].
@@ -1243,4 +1187,109 @@ func classifyReturns(p *Prog, fn *ssa.Function, par *ssa.Parameter, byFn map[*ss
 			kinds["opaque"]++
 		}
 	}
+}
+
+// aliasSets computes the values of fn (and its nested literals) that alias the memory denoted by roots: pointers into
+// it, sub-slices, references loaded out of it, and local variables holding a shallow copy of it (holders).
+func aliasSets(p *Prog, fn *ssa.Function, roots []ssa.Value) (map[ssa.Value]bool, map[ssa.Value]bool) {
+	// derived: values that alias caller memory (pointers into it, slices of it)
+	derived := map[ssa.Value]bool{}
+	for _, r := range roots {
+		derived[r] = true
+	}
+	// local variables that hold a shallow copy of caller memory (hc := *header): their reference-typed fields alias it
+	holders := map[ssa.Value]bool{}
+	changed := true
+	for changed {
+		changed = false
+		mark := func(v ssa.Value) {
+			if !derived[v] {
+				derived[v] = true
+				changed = true
+			}
+		}
+		for _, f := range allNested(fn) {
+			for _, fv := range f.FreeVars {
+				if r := resolveFreeVar(fv); r != ssa.Value(fv) && derived[r] {
+					mark(fv)
+				}
+			}
+			instrsOf(f, func(in ssa.Instruction) {
+				switch x := in.(type) {
+				case *ssa.FieldAddr:
+					if derived[x.X] {
+						mark(x)
+					}
+				case *ssa.IndexAddr:
+					if derived[x.X] {
+						mark(x)
+					}
+				case *ssa.Slice:
+					if derived[x.X] {
+						mark(x)
+					}
+				case *ssa.ChangeType:
+					if derived[x.X] {
+						mark(x)
+					}
+				case *ssa.Phi:
+					for _, e := range x.Edges {
+						if derived[e] {
+							mark(x)
+						}
+					}
+				case *ssa.UnOp:
+					if x.Op == token.MUL {
+						// loading a slice/pointer/map-typed field out of caller memory yields an alias of caller memory;
+						// loading a struct that contains such fields yields a shallow copy
+						if derived[x.X] && (isRefType(x.Type()) || containsRefs(x.Type())) {
+							mark(x)
+						}
+						if root := cellAddr(addrRoot(x.X)); holders[root] && (isRefType(x.Type()) || containsRefs(x.Type())) {
+							mark(x)
+						}
+						// loading from a single-assignment local cell that holds a derived value (spilled params)
+						if al, ok := cellAddr(x.X).(*ssa.Alloc); ok {
+							for _, st := range p.storesToCell(al) {
+								if derived[st.Val] {
+									mark(x)
+								}
+							}
+						}
+					}
+				case *ssa.Field:
+					if derived[x.X] && (isRefType(x.Type()) || containsRefs(x.Type())) {
+						mark(x)
+					}
+				case *ssa.Store:
+					if derived[x.Val] {
+						if root, ok := cellAddr(addrRoot(x.Addr)).(*ssa.Alloc); ok && !holders[root] {
+							if _, isStruct := x.Val.Type().Underlying().(*types.Struct); isStruct {
+								holders[root] = true
+								changed = true
+							}
+						}
+					}
+				}
+			})
+		}
+	}
+	return derived, holders
+}
+
+// aliasesParams: v aliases the caller's packet memory (a sub-slice, a pointer into it, or the address of a local that
+// holds a shallow copy of it) — as opposed to a value merely computed from its contents.
+func aliasesParams(p *Prog, fn *ssa.Function, v ssa.Value, params []*ssa.Parameter) bool {
+	var roots []ssa.Value
+	for _, pp := range params {
+		roots = append(roots, pp)
+	}
+	derived, holders := aliasSets(p, fn, roots)
+	if derived[v] || derived[p.origin(v)] {
+		return true
+	}
+	if al, ok := cellAddr(addrRoot(v)).(*ssa.Alloc); ok && holders[al] {
+		return true
+	}
+	return false
 }
